@@ -214,7 +214,8 @@ MulLoop(it, i, cost, total, l0, new, limits, max) ==
                              NAdd(NMulI(N(l0 + l1), 6),
                                   NDivSmall(NMul(N(l0), N(l1)), IF new THEN 16 ELSE 128)[1])))
                 IN  IF Over(c, max) THEN [st |-> "err", kind |-> "CostExceeded"]
-                    ELSE IF l0 * l1 > QuadCap THEN [st |-> "abstain", why |-> "multiply operands above cap"]
+                    ELSE IF l0 > QuadCap \/ l1 > QuadCap \/ l0 * l1 > QuadCap
+                         THEN [st |-> "abstain", why |-> "multiply operands above cap"]
                     ELSE LET t == ZMul(total, ZFromAtom(it[i].a))
                              nl == ZLimbs(t)
                          IN  IF limits /\ nl > 1024 THEN [st |-> "err", kind |-> "InvalidOpArg"]
@@ -253,7 +254,8 @@ DivFront(args, max, flags, oldBase, oldPerByte) ==
                     IN  IF Over(cost, max) THEN Err("CostExceeded")
                         ELSE LET b == ZFromAtom(it[2].a)
                              IN  IF ZIsZero(b) THEN Err("DivisionByZero")
-                                 ELSE IF l0 * l1 > QuadCap THEN Abstain("division operands above cap")
+                                 ELSE IF l0 > QuadCap \/ l1 > QuadCap \/ l0 * l1 > QuadCap
+                                      THEN Abstain("division operands above cap")
                                  ELSE [st |-> "go", cost |-> cost, qr |-> ZDivModFloor(ZFromAtom(it[1].a), b)]
 
 OpDiv(args, max, flags) ==
@@ -383,7 +385,8 @@ OpModpow(args, max, flags) ==
                         zm == ZFromAtom(it[3].a)
                     IN  IF ze[1] THEN Err("InvalidOpArg")
                         ELSE IF ZIsZero(zm) THEN Err("DivisionByZero")
-                        ELSE IF e * 8 * m * m > ModpowCap \/ b * m > QuadCap THEN Abstain("modpow operands above cap")
+                        ELSE IF e > ModpowCap \/ m > ModpowCap \/ b > QuadCap
+                                \/ e * 8 * m * m > ModpowCap \/ b * m > QuadCap THEN Abstain("modpow operands above cap")
                         ELSE LET res == ZToAtom(ZModPow(ZFromAtom(it[1].a), ze, zm))
                              IN  Ok(NAdd(cost, MallocCost(Len(res))), A(res), AtomAl(res))
 
